@@ -12,6 +12,7 @@ import (
 	"encoding/json"
 	"fmt"
 	"os"
+	"runtime/debug"
 	"strings"
 	"testing"
 	"time"
@@ -346,8 +347,42 @@ func checkScenario(f failer, rec *ev.Rec, sc *scen, fatal bool) {
 		}
 		return true
 	}
+	type ckey struct {
+		noopt bool
+		k     int
+	}
+	type compiled struct {
+		bc    *ugo.Bytecode
+		mm    *ugo.ModuleMap
+		infra string
+	}
+	cache := map[ckey]compiled{}
 	for _, kk := range order {
-		r := runVariant(sc.Main, sc.Mod, sc.HasMod, kk.k, kk.noopt, kk.rt, sc.Callback)
+		// one compilation per (k, optimizer flag), run directly and after the round trip
+		c, ok := cache[ckey{kk.noopt, kk.k}]
+		if !ok {
+			bc, mm, err, pan := compile(strings.Repeat("\n", kk.k)+sc.Main, sc.Mod, sc.HasMod, kk.noopt)
+			c = compiled{bc: bc, mm: mm}
+			if pan != "" {
+				c.infra = "compile panic: " + pan
+			} else if err != nil {
+				c.infra = "compile: " + err.Error()
+			}
+			cache[ckey{kk.noopt, kk.k}] = c
+		}
+		var r runResult
+		switch {
+		case c.infra != "":
+			r.infra = c.infra
+		case kk.rt:
+			if bc, err := roundTrip(c.bc, c.mm); err != nil {
+				r.infra = "roundtrip: " + err.Error()
+			} else {
+				r = execute(bc, sc.Callback)
+			}
+		default:
+			r = execute(c.bc, sc.Callback)
+		}
 		rec.Case()
 		switch {
 		case r.timedOut:
@@ -453,6 +488,12 @@ func classify(rec *ev.Rec, sc *scen) {
 		rec.Class("wrapped-in:" + w)
 	}
 	rec.Class("fail:" + sc.Fail)
+	if sc.ImportChain {
+		rec.Class("fails-during-import")
+		if sc.Exp[len(sc.Exp)-1] == (expFrame{File: modName, Lo: 1, Hi: 1}) {
+			rec.Class("fails-at-first-byte-of-module")
+		}
+	}
 	if sc.HasMod {
 		rec.Class("with-module")
 		rec.Class(fmt.Sprintf("file-crossings:%d", min(sc.CrossMod, 4)))
@@ -655,6 +696,8 @@ func TestCheck(t *testing.T) {
 		"a Go panic escaping from a run belongs to C05 and is excluded",
 	}
 	defer func() { rec.Flush(!t.Failed() || rec.HasUnknown()) }()
+	// every run allocates a fresh VM (~100 KiB) while the live heap is tiny: collect less often
+	defer debug.SetGCPercent(debug.SetGCPercent(2000))
 
 	runReplays(t, rec)
 	if ev.ReplayOnly() {
